@@ -1,28 +1,4 @@
-mod alloc;
-mod c16;
-mod case;
-mod driver;
-mod elem;
-mod evidence;
-mod gen;
-mod history;
-mod hooks;
-mod interp;
-mod known;
-mod lockstep;
-mod multi;
-mod oracle;
-mod props;
-mod real;
-mod replay;
-#[cfg(orx_concurrent_iter_verif)]
-mod sched;
-#[cfg(orx_concurrent_iter_verif)]
-mod props_sched;
-mod seq;
-mod sources;
-mod twin;
-mod typeprobe;
+use vharness::{alloc, driver, evidence, known, props, replay, twin, typeprobe};
 
 #[global_allocator]
 static GLOBAL: alloc::Counting = alloc::Counting;
@@ -41,6 +17,23 @@ fn main() {
     if args.len() >= 2 && args[1] == "child" {
         twin::child_main();
         return;
+    }
+    if args.len() >= 4 && args[1] == "decode" {
+        // turn a libFuzzer crash input of fuzz_seq into a replay file (printed to stdout)
+        let data = std::fs::read(&args[3]).unwrap_or_default();
+        match vharness::fuzzrun::seq_case(&args[2], &data) {
+            Some(c) => {
+                let mut j = c.to_json();
+                j["engine"] = serde_json::json!("seq");
+                j["note"] = serde_json::json!("decoded from a libFuzzer crash input (sanitizer report); reproduce with the fuzz target");
+                println!("{}", serde_json::to_string_pretty(&j).unwrap_or_default());
+            }
+            None => println!("{{}}"),
+        }
+        return;
+    }
+    if args.len() >= 5 && args[1] == "fuzzmerge" {
+        std::process::exit(evidence::fuzz_merge(&args[2], &args[3], &args[4]));
     }
     if args.len() < 4 {
         usage();
